@@ -94,7 +94,11 @@ func CSSSplitW(s string) []CSSDeclW {
 			i++
 			cur.WriteByte(s[i])
 		case c == '/' && i+1 < len(s) && s[i+1] == '*':
+			// a comment produces no token but it does separate the tokens around it: r/**/ed is two identifiers, not "red"
 			end := strings.Index(s[i+2:], "*/")
+			if cs := cur.String(); len(cs) > 0 && cs[len(cs)-1] != ' ' && cs[len(cs)-1] != ':' {
+				cur.WriteByte(' ')
+			}
 			if end < 0 {
 				i = len(s)
 			} else {
